@@ -44,6 +44,9 @@ CONSTANTS Family,     \* "top" | "sub" | "ns" | "stubs" : which family of layout
           Emit
 
 VARIABLES files, pth, pthform,                 \* the case: layout
+          given,                               \* the case: which of the paths 1, 2 the user passes as search_paths
+                                               \* ("both"; "only1"/"only2": the other one is reached only through
+                                               \* a request by the path of its package directory)
           request,                             \* the case: request form (chosen by FindSpec)
           listing,                             \* the case: what os.walk reports, directory by directory
           pc,
@@ -54,9 +57,9 @@ VARIABLES files, pth, pthform,                 \* the case: layout
           tree, outcome,                       \* the loaded tree (set of nodes), "ok" | "ModuleNotFoundError"
           portions, pti, seen, subs,           \* iter_submodules: portions to scan, index, `seen`, yielded items
           idx                                  \* _load_submodules loop index
-casevars == <<files, pth, pthform, request>>
+casevars == <<files, pth, pthform, given, request>>
 stubvars == <<sfound, snsdirs>>
-vars == <<files, pth, pthform, request, listing, pc, py, causes, canon, spaths, topname, fpi, found, nsdirs, sfound, snsdirs,
+vars == <<files, pth, pthform, given, request, listing, pc, py, causes, canon, spaths, topname, fpi, found, nsdirs, sfound, snsdirs,
           tree, outcome, portions, pti, seen, subs, idx>>
 
 Pkg == "pkg"
@@ -107,7 +110,10 @@ InSeq(e, s) == \E i \in 1..Len(s) : s[i] = e
 \* Reference: what CPython does
 \* ====================================================================================================
 PyNone == [kind |-> "none", file |-> NoFile, locs |-> <<>>, ext |-> FALSE]
-PySysPath == IF pth # 0 THEN <<1, 2, 3>> ELSE <<1, 2>>         \* site.addsitedir: .pth lines are relative to the site dir
+\* site.addsitedir: .pth lines are relative to the site dir.  A package requested by the path of its directory whose
+\* parent is not a search path is the package CPython imports with that parent first on sys.path.
+ExtPath == IF given = "only1" THEN 2 ELSE 1                    \* the path that is not passed as a search path
+PySysPath == IF given = "only1" THEN <<2, 1>> ELSE IF pth # 0 THEN <<1, 2, 3>> ELSE <<1, 2>>
 SysRoots == [i \in 1..Len(PySysPath) |-> <<PySysPath[i], <<>>>>]
 
 \* PathFinder._get_spec + FileFinder.find_spec over the directories `dirs`, from index i
@@ -173,7 +179,8 @@ PyReference ==
 \* ====================================================================================================
 \* ModuleFinder.__init__: search_paths, then _extend_from_pth_files -> _handle_pth_file:
 \*   `if line and not line.startswith("#") and os.path.exists(line)`  (relative lines: relative to the cwd)
-ImplSearchPaths == IF pth # 0 /\ pthform = "abs" THEN <<1, 2, 3>> ELSE <<1, 2>>
+ImplSearchPaths == IF given = "only1" THEN <<1>> ELSE IF given = "only2" THEN <<2>>
+                   ELSE IF pth # 0 /\ pthform = "abs" THEN <<1, 2, 3>> ELSE <<1, 2>>
 
 \* find_spec(Path(dir)): _module_name_path gives (dir name, init module or dir); _top_module_name returns the
 \* first part below the first search path the directory is relative to, else inserts the parent at position 0
@@ -181,6 +188,12 @@ TopModuleName(sp, req) ==
   IF req \in {"name", "dotted"} THEN [name |-> Pkg, sp |-> sp]      \* Path("pkg") does not exist: FileNotFoundError branch
   ELSE LET i == IF req = "path1" THEN 1 ELSE IF req = "path2" THEN 2 ELSE 3
        IN IF InSeq(i, sp) THEN [name |-> Pkg, sp |-> sp] ELSE [name |-> Pkg, sp |-> <<i>> \o sp]
+
+\* the search paths after find_spec: unchanged, except for the only request possible when a path is not given
+ForcedRequest == IF given = "both" THEN "name" ELSE IF given = "only1" THEN "path2" ELSE "path1"
+EffectivePaths == TopModuleName(ImplSearchPaths, ForcedRequest).sp
+\* what the property demands of them: the given search paths, preceded by the parent of an outside directory
+ExpectedPaths == IF given = "both" THEN ImplSearchPaths ELSE PySysPath
 
 \* one iteration of `for path in self.search_paths:` in find_package(dn); acc = [found, ns]
 \* dn = "pkg" or "pkg-stubs" (real_module_name = dn without "-stubs": a Package is always named "pkg")
@@ -339,7 +352,7 @@ MergeTopStubs(L, T, fnd) ==
 
 \* the whole run as one function of the listing (used for the canonical order; the actions below do the same stepwise)
 ImplRun(L) ==
-  LET fp == FindBoth(ImplSearchPaths)
+  LET fp == FindBoth(EffectivePaths)
   IN IF fp.found = NotFound /\ fp.ns = <<>> THEN [outcome |-> "ModuleNotFoundError", tree |-> {}]
      ELSE IF fp.misnamed THEN [outcome |-> "KeyError", tree |-> {}]      \* the module is called "pkg-stubs": _post_load fails
      ELSE LET items == IterAll(L, PortionsOf(fp.found, fp.ns), 1, [items |-> <<>>, seen |-> {}], fp.found = NotFound)
@@ -434,7 +447,7 @@ PkgDirs == {k \in WalkDirs : Len(k[2]) = 1 /\ k[2][1] = Pkg}
 RelDirs == {k[2] : k \in WalkDirs}
 PathsWith(d) == {p \in {1, 2, 3} : IsDir(p, d)}
 MinOf(S) == CHOOSE p \in S : \A q \in S : p <= q
-GriffeFind == FindFold(ImplSearchPaths, 1, [found |-> NotFound, ns |-> <<>>])
+GriffeFind == FindFold(EffectivePaths, 1, [found |-> NotFound, ns |-> <<>>])
 
 \* a compiled top-level module (pkg.<abi>.so) is invisible to find_package (the TODO in find_package), so a later
 \* entry of the same name is loaded although CPython stops at the compiled module
@@ -449,7 +462,7 @@ C_InitPyi == \E k \in WalkDirs : /\ k[2][1] = Pkg /\ "__init__.pyi" \in FileName
                                  /\ LET r == PyResolve(k[2]) IN ~(r.kind = "namespace" /\ r.locs = <<k>>)
 \* find_stubs_package=True and only a stubs-only *namespace* package exists: find_package names it "pkg-stubs",
 \* the module is loaded under that name and load() ends in KeyError: 'pkg'
-C_StubsNsMisnamed == FindStubs /\ FindBoth(ImplSearchPaths).misnamed
+C_StubsNsMisnamed == FindStubs /\ FindBoth(EffectivePaths).misnamed
 \* pkgutil-style package mixed with a regular package / a module file of the same name elsewhere on the path
 C_PkgutilRegular == (\E k \in PkgDirs : "__init__.py!" \in FileNames(k[1], k[2])) /\ (\E k \in PkgDirs : "__init__.py" \in FileNames(k[1], k[2]))
 C_PkgutilModule == (\E k \in PkgDirs : "__init__.py!" \in FileNames(k[1], k[2])) /\ (\E p \in {1, 2, 3} : IsFile(p, <<"pkg.py">>) \/ IsFile(p, <<"pkg.so">>))
@@ -559,6 +572,8 @@ Layouts == IF Family = "top" THEN TopLayoutsOK ELSE IF Family = "sub" THEN SubLa
 
 Init ==
   /\ \E l \in Layouts : files = l.files /\ pth = l.pth /\ pthform = l.pthform
+  /\ given \in (IF Family = "top" THEN {"both", "only1", "only2"} ELSE {"both"})
+  /\ (given # "both" => pth = 0 /\ IsDir(ExtPath, <<Pkg>>))
   /\ request = "-"
   /\ listing = <<>> /\ pc = "reference"
   /\ py = PyNone /\ causes = {} /\ canon = [outcome |-> "-", tree |-> {}]
@@ -606,6 +621,8 @@ FinderInit ==
 \* directory in one of the search paths.  (The request form cannot influence the walk: the forms other than "name"
 \* are explored under the canonical listing only.)
 RequestOK(req) ==
+  IF given # "both" THEN req = ForcedRequest /\ listing = CanonListing     \* directory outside the search paths
+  ELSE
   \/ req = "name"
   \/ req = "dotted" /\ Family = "top" /\ listing = CanonListing
   \/ /\ req \in {"path1", "path2", "path3"} /\ listing = CanonListing
@@ -620,7 +637,7 @@ FindSpec ==
        /\ LET r == TopModuleName(spaths, req) IN topname' = r.name /\ spaths' = r.sp
   /\ fpi' = 1 /\ found' = NotFound /\ nsdirs' = <<>>
   /\ pc' = "find_package"
-  /\ UNCHANGED <<stubvars, files, pth, pthform, listing, py, causes, canon, tree, outcome, portions, pti, seen, subs, idx>>
+  /\ UNCHANGED <<stubvars, files, pth, pthform, given, listing, py, causes, canon, tree, outcome, portions, pti, seen, subs, idx>>
 
 \* find_package("pkg"): one search path per step
 FindPackage ==
@@ -688,7 +705,7 @@ FirstPathWins    == (Done /\ Clean) => V_FirstPathWins(outcome, tree)
 Classified       == (Done /\ Clean) => V_Classified(outcome, tree)
 OrderIndependent == (Done /\ Clean) => V_OrderIndependent(outcome, tree)
 \* whatever the request form, find_spec ends with the same top module name and the same search paths
-RequestIndependent == pc = "find_package" => topname = Pkg /\ spaths = ImplSearchPaths
+RequestIndependent == pc = "find_package" => topname = Pkg /\ spaths = ExpectedPaths
 \* the stepwise actions and the functional composition are the same algorithm
 StepwiseIsFunctional == Done => LET r == ImplRun(listing) IN r.outcome = outcome /\ r.tree = tree
 \* in the defect domain the model must exhibit the defect: this "invariant" is expected to be violated there
@@ -699,12 +716,12 @@ OnlyKnownViolations == Done => Violated(outcome, tree) \subseteq UNION {Explains
 NodeOut(T, n) == [path |-> n.path, files |-> n.files, ns |-> n.ns, contrib |-> n.contrib, cls |-> Cls(T, n)]
 EmitCase ==
   (Emit /\ Done) =>
-    PrintT(<<"CASE", ToJson([fam |-> Family, stubs |-> FindStubs, files |-> files, pth |-> pth, pthform |-> pthform, request |-> request,
+    PrintT(<<"CASE", ToJson([fam |-> Family, stubs |-> FindStubs, files |-> files, pth |-> pth, pthform |-> pthform, given |-> given, request |-> request,
                              iscanon |-> (listing = CanonListing),
                              listing |-> {[p |-> k[1], d |-> k[2], files |-> listing[k].files, dirs |-> listing[k].dirs] : k \in DOMAIN listing},
                              impl |-> [outcome |-> outcome, tree |-> {NodeOut(tree, n) : n \in tree}, spaths |-> spaths],
                              \* the reference is the same for every case of a layout: printed once, with the canonical "name" case
-                             py |-> IF listing = CanonListing /\ request = "name"
+                             py |-> IF listing = CanonListing /\ request = ForcedRequest
                                     THEN [syspath |-> py.syspath, top |-> py.top, walk |-> py.walk, imp |-> py.imp]
                                     ELSE [syspath |-> <<>>, top |-> PyNone, walk |-> {}, imp |-> {}],
                              viol |-> Violated(outcome, tree), causes |-> causes])>>)
